@@ -168,6 +168,14 @@ def cases(tier):
                     for other in ('d1', 'f1', 'tick', 'd2'):
                         out.append(program(kind, [(b, v), (other, other == 'tick')], body))
                         out.append(program(kind, [(other, other == 'tick'), (b, v)], body))
+    # volatile children that fail - alone (a scope without regular children), in the time step in which the body ends, next to
+    # regular children
+    for kind in kinds:
+        for body in bodies:
+            for kids in ([('f1', True)], [('f0', True)], [('f2', True)], [('f1', True), ('d1', False)], [('d1', False), ('f1', True)],
+                         [('f1', True), ('tick', True)], [('f2', True), ('d2', False)], [('f1', True), ('f1b', True)], [('priv1', True)],
+                         [('f1', True), ('f1b', False)]):
+                out.append(program(kind, kids, body))
     for kind in ('untilf', 'scope', 'until2'):
         for body in ('inuntil', 'inuntil_d2', 'inuntil_raise0'):
             for kids in ([('tick', True)], [('d1', False)], [('d2', False), ('tick', True)], [('f1', False), ('d2', False)], [('forever', True), ('d1', False)]):
